@@ -14,6 +14,7 @@ import (
 	"strings"
 	"time"
 
+	"github.com/thushan/olla/internal/adapter/proxy/olla"
 	"github.com/thushan/olla/internal/config"
 	"github.com/thushan/olla/internal/core/domain"
 	"github.com/thushan/olla/internal/zz_verif/stack"
@@ -21,7 +22,11 @@ import (
 )
 
 // Fault kinds. "refuse" and "open" (engine circuit breaker pre-opened) are set up outside the backend script.
-var PreKinds = []string{"refuse", "reset0", "close0", "garbage"}
+var PreKinds = []string{"refuse", "reset0", "close0", "garbage", "dnsfail"}
+
+// UnresolvableHost is a name under the reserved .invalid TLD: the lookup fails (the sandbox has no resolver,
+// a real deployment gets NXDOMAIN), i.e. the endpoint is unreachable before any connection exists.
+const UnresolvableHost = "olla-verif-unresolvable.invalid"
 var PostKinds = []string{"hdr-reset", "hdr-close", "body-reset", "body-close", "shortcl", "truncchunk"}
 
 type EPSpec struct {
@@ -29,6 +34,7 @@ type EPSpec struct {
 	Prio   int             `json:"prio"`
 	Status string          `json:"status,omitempty"` // initial repository status override ("" = healthy)
 	Open   bool            `json:"open,omitempty"`   // engine circuit breaker pre-opened by a request history
+	HalfOpen bool          `json:"half_open,omitempty"` // olla engine: breaker opened by a request history, then its timeout elapsed: the request is the half-open probe
 	PreFail int            `json:"prefail,omitempty"` // olla engine: this many earlier failures recorded by the endpoint's breaker (below its threshold)
 	Beh    stack.Behaviour `json:"beh"`
 }
@@ -143,6 +149,9 @@ func Run(sc *Scenario) *Obs {
 	for i, e := range sc.EPs {
 		backends[i] = stack.NewBackend(e.Name)
 		eps[i] = stack.EP{Name: e.Name, Type: "openai", Priority: e.Prio, Backend: backends[i]}
+		if e.Beh.Kind == "dnsfail" {
+			eps[i].Host = UnresolvableHost
+		}
 	}
 	defer func() {
 		for _, b := range backends {
@@ -161,8 +170,13 @@ func Run(sc *Scenario) *Obs {
 	defer s.Stop()
 	// stats baselines (priming requests must not count)
 	for i, e := range sc.EPs {
-		if e.Open {
+		if e.Open || e.HalfOpen {
 			openBreaker(s, sc, i, backends, 12)
+			if e.HalfOpen {
+				if svc, ok := s.Proxy.(*olla.Service); ok {
+					olla.VerifRewindEndpointBreaker(svc, e.Name, 31*time.Second)
+				}
+			}
 		} else if e.PreFail > 0 {
 			openBreaker(s, sc, i, backends, e.PreFail)
 		}
@@ -228,7 +242,7 @@ func Run(sc *Scenario) *Obs {
 	obs.Conns = map[string]int64{}
 	cs := s.Stats.GetConnectionStats()
 	for i, e := range sc.EPs {
-		obs.Conns[e.Name] = cs[backends[i].URL()]
+		obs.Conns[e.Name] = cs[eps[i].URL()]
 	}
 	g1 := s.Stats.GetProxyStats()
 	obs.Global = [3]int64{g1.TotalRequests - g0.TotalRequests, g1.SuccessfulRequests - g0.SuccessfulRequests, g1.FailedRequests - g0.FailedRequests}
@@ -236,7 +250,7 @@ func Run(sc *Scenario) *Obs {
 	obs.Engine = [3]int64{e1.TotalRequests - e0.TotalRequests, e1.SuccessfulRequests - e0.SuccessfulRequests, e1.FailedRequests - e0.FailedRequests}
 	pe1 := s.Stats.GetEndpointStats()
 	for i, e := range sc.EPs {
-		a, b := pe0[backends[i].URL()], pe1[backends[i].URL()]
+		a, b := pe0[eps[i].URL()], pe1[eps[i].URL()]
 		obs.PerEP[e.Name] = [3]int64{b.TotalRequests - a.TotalRequests, b.SuccessfulRequests - a.SuccessfulRequests, b.FailedRequests - a.FailedRequests}
 	}
 	if sc.Followup {
